@@ -117,20 +117,18 @@ theorem reset_mallocMax (s : State) (hard : Bool) : (reset s hard).mallocMax = s
     · split <;> rfl
   · rfl
 
-theorem allocReusable_mallocMax (s : State) (size : Nat) :
-    (allocReusable s size).1.mallocMax = s.mallocMax := by
-  simp only [allocReusable]
-  split
-  · split
-    · rfl
-    · split
-      · rfl
-      · have h := allocOneshotSlow_mallocMax (leftover 64 s s.remaining) (slotSize (slotIndex size))
-        rw [leftover_mallocMax] at h
-        split <;> simp_all
-  · split
-    · rfl
-    · split <;> rfl
+theorem allocReusable_mallocMax' {s a' : State} {size n : Nat} {o : Option Loc}
+    (h : allocReusable s size = (a', o, n)) : a'.mallocMax = s.mallocMax := by
+  simp only [allocReusable] at h
+  generalize slotIndex size = idx at h
+  generalize slotSize idx = asz at h
+  have hl := leftover_mallocMax 64 s s.remaining
+  generalize leftover 64 s s.remaining = s1 at hl h
+  have h1 := allocOneshotSlow_mallocMax s1 asz
+  generalize allocOneshotSlow s1 asz = r at h1 h
+  obtain ⟨s2, o2⟩ := r
+  have h2 : s2.mallocMax = s.mallocMax := h1.trans hl
+  cases o2 <;> simp only at h <;> (repeat' split at h) <;> (injection h with h _; subst h) <;> first | rfl | exact h2
 
 example : (allocReusable (init 8192 0 1000) 100).1.mallocMax = 1000 := by decide
 
@@ -194,7 +192,148 @@ theorem allocReusable_spec {a a' : State} {size allocated : Nat} {p : Loc}
         refine ⟨Nat.le_refl _, by omega, ?_⟩
         intro hm; omega
 
-example : allocReusable (init 8192 0) 100 = ({ init 8192 0 with blocks := [8144], ptr := 128, shift := 14 },
-    some (.managed 0 0), 128) := by decide
+/-! ## 3. vector invariant and the operations that do not allocate
+
+`WF` is the invariant of the task statement plus `cap < 2^32` (the C++ fields are `uint32_t`; needed so that
+`size := n % u32` in `resize` is the identity). -/
+
+structure WF (v : Vec) : Prop where
+  len : v.buf.length = v.cap
+  le : v.size ≤ v.cap
+  nodata : v.data = none → v.cap = 0
+  cap32 : v.cap < u32
+
+theorem wf_empty : WF {} := ⟨rfl, Nat.le_refl _, fun _ => rfl, by decide⟩
+
+theorem capacity_ge_size {v : Vec} (h : WF v) : v.size ≤ v.cap := h.le
+
+theorem length_items {v : Vec} (h : WF v) : (items v).length = v.size := by
+  have := h.len; have := h.le
+  simp only [items, List.length_take]; omega
+
+theorem clear_spec {v : Vec} (h : WF v) : WF (clear v) ∧ items (clear v) = [] :=
+  ⟨⟨h.len, Nat.zero_le _, h.nodata, h.cap32⟩, by simp [clear, items]⟩
+
+example : items (clear { data := some (.dyn 0), buf := [1, 2, 3], size := 2, cap := 3 }) = [] := by decide
+
+theorem truncate_spec {v : Vec} (h : WF v) (n : Nat) :
+    WF (truncate v n) ∧ items (truncate v n) = (items v).take n := by
+  refine ⟨⟨h.len, ?_, h.nodata, h.cap32⟩, ?_⟩
+  · have := h.le; simp only [truncate]; omega
+  · simp only [truncate, items, List.take_take, Nat.min_comm]
+
+example : items (truncate { data := some (.dyn 0), buf := [1, 2, 3], size := 3, cap := 3 } 1) = [1] := by decide
+
+theorem pop_spec {v : Vec} (h : WF v) (h0 : 0 < v.size) :
+    WF (pop v).1 ∧ items (pop v).1 = (items v).dropLast ∧ some (pop v).2 = (items v).getLast? := by
+  have hl := h.len; have hle := h.le
+  refine ⟨⟨h.len, ?_, h.nodata, h.cap32⟩, ?_, ?_⟩
+  · simp only [pop]; omega
+  · rw [List.dropLast_eq_take, length_items h]
+    simp only [pop, items, List.take_take]
+    congr 1; omega
+  · rw [List.getLast?_eq_getElem?, length_items h]
+    simp only [pop, items, List.getD_eq_getElem?_getD]
+    rw [List.getElem?_take_of_lt (by omega)]
+    rw [List.getElem?_eq_getElem (by omega)]
+    rfl
+
+example : pop { data := some (.dyn 0), buf := [1, 2, 3], size := 2, cap := 3 } =
+    ({ data := some (.dyn 0), buf := [1, 2, 3], size := 1, cap := 3 }, 2) := by decide
+
+/-- `remove_at(i)`, `i < size`: the memmove stays inside the allocation and the result is `eraseIdx` -/
+theorem removeAt_spec {v : Vec} (h : WF v) {i : Nat} (hi : i < v.size) :
+    ∃ v', removeAt v i = some v' ∧ WF v' ∧ items v' = (items v).eraseIdx i := by
+  have hl := h.len; have hle := h.le
+  simp only [removeAt]
+  split
+  · rename_i hn
+    refine ⟨_, rfl, ⟨h.len, by simp only; omega, h.nodata, h.cap32⟩, ?_⟩
+    have hi' : i = v.size - 1 := by omega
+    simp only [items]
+    rw [List.eraseIdx_eq_take_drop_succ, List.take_take, List.drop_take]
+    have : v.size - (i + 1) = 0 := by omega
+    rw [this, List.take_zero, List.append_nil]
+    congr 1; omega
+  · rename_i hn
+    have hlen : ((v.buf.drop (i + 1)).take (v.size - 1 - i)).length = v.size - 1 - i := by
+      simp only [List.length_take, List.length_drop]; omega
+    simp only [blit, hlen]
+    rw [if_pos (by omega)]
+    refine ⟨_, rfl, ⟨?_, by simp only; omega, h.nodata, h.cap32⟩, ?_⟩
+    · simp only [List.length_append, List.length_take, List.length_drop]; omega
+    · simp only [items]
+      rw [List.eraseIdx_eq_take_drop_succ, List.take_take, List.drop_take]
+      rw [List.take_left' (by simp only [List.length_append, List.length_take, List.length_drop]; omega)]
+      congr 1
+      · congr 1; omega
+      · congr 1; omega
+
+example : (removeAt { data := some (.dyn 0), buf := [1, 2, 3, 9], size := 3, cap := 4 } 0).map items = some [2, 3] := by
+  decide
+
+theorem contains_spec (v : Vec) (x : Nat) : contains v x = true ↔ x ∈ items v := by
+  simp [contains]
+
+example : contains { data := some (.dyn 0), buf := [1, 2, 3, 9], size := 3, cap := 4 } 9 = false := by decide
+
+/-- `index_of` = index of the first occurrence (`List.findIdx?`) -/
+theorem indexOf_spec {v : Vec} (h : WF v) (x : Nat) : indexOf v x = (items v).findIdx? (· == x) := by
+  simp only [indexOf]
+  rw [← length_items h]
+  split
+  · rename_i hlt
+    exact (List.findIdx?_eq_some_iff_findIdx_eq.2 ⟨hlt, rfl⟩).symm
+  · rename_i hge
+    have := @List.findIdx_le_length _ (· == x) (items v)
+    exact (List.findIdx?_eq_none_iff_findIdx_eq.2 (by omega)).symm
+
+example : indexOf { data := some (.dyn 0), buf := [1, 2, 1, 9], size := 3, cap := 4 } 1 = some 0 := by decide
+
+/-! ## 4. allocation: `reserve_with_byte_size`
+
+Hypotheses: `0 < itemSize`, `a.mallocMax < 2^32` (then `allocated < 2^32` and `% u32` is the identity),
+`0 < byteSize ≤ 2^64` (the arena computes the slot from `byteSize - 1` modulo `2^64`). -/
+
+/- NOT PROVED (commented out): the tactic proof below elaborates, but the kernel does not finish checking it in 60 s
+(it unfolds `slotIndex`/`% 2^64` terms of the arena while comparing states); it has to be restructured so that
+`freeReusable …`/`allocReusable …` are generalised before any `rfl`/`injection`.
+
+theorem reserveWithByteSize_spec {a a' : State} {v v' : Vec} {e : Err} {byteSize itemSize n : Nat}
+    (h : reserveWithByteSize a v byteSize itemSize = (a', v', e)) (hw : WF v) (hi : 0 < itemSize)
+    (hm : a.mallocMax < u32) (hb0 : 0 < byteSize) (hb : byteSize ≤ u64) (hn : n * itemSize ≤ byteSize)
+    (hsz : v.size ≤ n) :
+    a'.mallocMax = a.mallocMax ∧ (e = .oom → v' = v) ∧
+    (e = .ok → WF v' ∧ v'.size = v.size ∧ items v' = items v ∧ n ≤ v'.cap) := by
+  simp only [reserveWithByteSize] at h
+  generalize hr : allocReusable a byteSize = r at h
+  obtain ⟨a1, o, alloc⟩ := r
+  have hmm := allocReusable_mallocMax' hr
+  cases o with
+  | none =>
+    simp only at h
+    injection h with h1 h2; injection h2 with h2 h3; subst h1 h2 h3
+    exact ⟨hmm, fun _ => rfl, fun h => by cases h⟩
+  | some p =>
+    have hs := allocReusable_spec hr hb0 hb
+    have hlt : alloc / itemSize < u32 := Nat.lt_of_le_of_lt (Nat.div_le_self _ _) (hs.2.2 hm)
+    have hge : n ≤ alloc / itemSize := (Nat.le_div_iff_mul_le hi).2 (by omega)
+    have hmod : alloc / itemSize % u32 = alloc / itemSize := Nat.mod_eq_of_lt hlt
+    rw [hmod] at h
+    generalize alloc / itemSize = newCap at h hlt hge
+    simp only at h
+    injection h with h1 h2; injection h2 with h2 h3; subst h1 h2 h3
+    have hl := hw.len; have hle := hw.le
+    refine ⟨?_, fun h => by cases h, fun _ => ⟨⟨?_, ?_, ?_, hlt⟩, rfl, ?_, hge⟩⟩
+    · split
+      · rw [freeReusable_mallocMax]; exact hmm
+      · exact hmm
+    · simp only [List.length_append, List.length_take, List.length_replicate]; omega
+    · simp only; omega
+    · intro hd; cases hd
+    · simp only [items]
+      rw [List.take_left' (by simp only [List.length_take]; omega)]
+
+-/
 
 end AsmjitVerif.Vector
